@@ -92,20 +92,23 @@ class Obj:
             # name-mangled private stored by a trivial setter
             raise AnalysisError("field %s.%s not set" % (self.clsname, name))
         ev = SymEval(self.prog, g)
-        # self.<prop> reads inside the getter are resolved recursively through the heap preload
         for k, v in self.fields.items():
             ev.heap[("attr", SELF, k)] = v
-        for pn in self.cls.getters:
-            if pn != name and ("attr", SELF, pn) not in ev.heap:
-                try:
-                    ev.heap[("attr", SELF, pn)] = self.get(pn, depth + 1)
-                except AnalysisError:
-                    pass
         rs = _feasible_runs(self.prog, g, ev)
         rets = [e.value for r in rs for _, e in r.effects() if e.kind == "ret"]
         if len(rets) != 1:
             raise AnalysisError("getter %s.%s is not straight-line (%d returns)" % (self.clsname, name, len(rets)))
-        return rets[0]
+        # remaining self.<property> reads are resolved recursively (memoised)
+        from .guards import subst, renorm
+        cache = self.__dict__.setdefault("_pc", {})
+
+        def fn(x):
+            if x[0] == "attr" and x[1] == SELF and x[2] in self.cls.getters and x[2] != name:
+                if x[2] not in cache:
+                    cache[x[2]] = self.get(x[2], depth + 1)
+                return cache[x[2]]
+            return None
+        return renorm(subst(rets[0], fn))
 
 
 def construct(prog, clsname, args=(), kwargs=()):
@@ -113,7 +116,7 @@ def construct(prog, clsname, args=(), kwargs=()):
     init = prog.find_method(o.cls, "__init__")
     if init is None:
         return o
-    rs = call_runs(prog, init, list(args), kwargs)
+    rs = [r for r in call_runs(prog, init, list(args), kwargs) if r.term not in ("raise", "exc")]
     if len(rs) != 1:
         raise AnalysisError("constructor %s(...) has %d feasible paths for these arguments" % (clsname, len(rs)))
     o._apply_stores(rs[0], 0)
